@@ -575,7 +575,8 @@ def cmd_check(prop, tier, seed, only_engines=None, evidence=True):
                 if v.get("prop") != prop:
                     # a rule that belongs to another property by workload class may also express
                     # this property (listed explicitly in the plan)
-                    if (v.get("prop"), v.get("rule")) in accept and not (v.get("known_sig") or ""):
+                    acc = (v.get("prop"), v.get("rule")) in accept or (v.get("hard") and (v.get("prop"), v.get("rule"), "hard") in accept)
+                    if acc and not (v.get("known_sig") or ""):
                         v["reattributed_from"] = v.get("prop")
                         v["prop"] = prop
                     else:
